@@ -242,10 +242,7 @@ func (e *Env) Tr(x *Expr) TTerm {
 					et = sl.Elem()
 				}
 			}
-			if es == "Val" {
-				return TTerm{S: fmt.Sprintf("(gat %s %s %s)", e.seq(es), a.S, i.S), Sort: es, T: et}
-			}
-			return TTerm{S: fmt.Sprintf("(select (select %s (sref %s)) (+ (soff %s) %s))", e.seq(es), a.S, a.S, i.S), Sort: es, T: et}
+			return TTerm{S: fmt.Sprintf("(%s %s %s %s)", gatName(es), e.seq(es), a.S, i.S), Sort: es, T: et}
 		case "Str":
 			return TTerm{S: "(gs.at " + a.S + " " + i.S + ")", Sort: "Int"}
 		}
@@ -354,6 +351,18 @@ func (e *Env) mapFams() (string, string, string) {
 	return e.famOf(v), e.famOf(d), e.famOf(c)
 }
 
+// mapFamsOf picks the map families by the Go type of the map term (map[string]any by default).
+func (e *Env) mapFamsOf(t TTerm) (string, string, string, string) {
+	srt := "Val"
+	if t.T != nil {
+		if mt, ok := t.T.Underlying().(*types.Map); ok {
+			srt = e.g.SortOf(mt.Elem())
+		}
+	}
+	v, d, c := e.g.MapFamilies(srt)
+	return e.famOf(v), e.famOf(d), e.famOf(c), srt
+}
+
 func (e *Env) call(x *Expr) TTerm {
 	a := e.args(x)
 	need := func(n int) bool {
@@ -382,7 +391,7 @@ func (e *Env) call(x *Expr) TTerm {
 		case "Str":
 			return I("(gs.len " + a[0].S + ")")
 		case "Int":
-			_, _, c := e.mapFams()
+			_, _, c, _ := e.mapFamsOf(a[0])
 			return I("(ite (= " + a[0].S + " 0) 0 (select " + c + " " + a[0].S + "))")
 		}
 		return e.fail("len of sort %s", a[0].Sort)
@@ -564,23 +573,23 @@ func (e *Env) call(x *Expr) TTerm {
 	// maps (map[string]any)
 	case "has":
 		if need(2) {
-			_, d, _ := e.mapFams()
+			_, d, _, _ := e.mapFamsOf(a[0])
 			return B("(select (select " + d + " " + a[0].S + ") (skey " + a[1].S + "))")
 		}
 	case "get":
 		if need(2) {
-			v, _, _ := e.mapFams()
-			return TTerm{S: "(select (select " + v + " " + a[0].S + ") (skey " + a[1].S + "))", Sort: "Val"}
+			v, _, _, srt := e.mapFamsOf(a[0])
+			return TTerm{S: "(select (select " + v + " " + a[0].S + ") (skey " + a[1].S + "))", Sort: srt}
 		}
 	case "hasKey":
 		if need(2) {
-			_, d, _ := e.mapFams()
+			_, d, _, _ := e.mapFamsOf(a[0])
 			return B("(select (select " + d + " " + a[0].S + ") " + a[1].S + ")")
 		}
 	case "getKey":
 		if need(2) {
-			v, _, _ := e.mapFams()
-			return TTerm{S: "(select (select " + v + " " + a[0].S + ") " + a[1].S + ")", Sort: "Val"}
+			v, _, _, srt := e.mapFamsOf(a[0])
+			return TTerm{S: "(select (select " + v + " " + a[0].S + ") " + a[1].S + ")", Sort: srt}
 		}
 	case "key":
 		return un("skey", "Int")
